@@ -333,14 +333,47 @@ def ite(c, a, b):
 # symbolic containers
 
 
-class SymSeq:
-    """A sequence of symbolic length.  elem(i) builds the element value for an
-    index term i (a z3 Int).  Immutable."""
+_seq_n = [0]
 
-    def __init__(self, length, elem, name="seq"):
+
+def subst_value(v, pairs):
+    """Substitute z3 constants inside a (possibly structured) value."""
+    if isinstance(v, Sym):
+        t = z3.substitute(v.term, *pairs)
+        r = wrap(z3.simplify(t), v.np)
+        if isinstance(r, Sym) and hasattr(v, "dtype"):
+            try:
+                r.dtype = v.dtype
+            except AttributeError:
+                pass
+        return r
+    if isinstance(v, tuple):
+        return tuple(subst_value(x, pairs) for x in v)
+    if isinstance(v, list):
+        return [subst_value(x, pairs) for x in v]
+    if hasattr(v, "pyvc_subst"):
+        return v.pyvc_subst(pairs)
+    return v
+
+
+class SymSeq:
+    """A sequence of symbolic length: `template` is the element at the index
+    constant i0; elem(i) substitutes.  Immutable."""
+
+    def __init__(self, length, elem, name="seq", i0=None, template=None):
         self.length = length  # SymInt / int
-        self.elem = elem
         self.name = name
+        if template is None:
+            _seq_n[0] += 1
+            i0 = z3.Int(f"seqi!{_seq_n[0]}")
+            template = elem(i0)
+        self.i0 = i0
+        self.template = template
+
+    def elem(self, i):
+        if not isinstance(i, z3.ExprRef):
+            i = to_term(i)
+        return subst_value(self.template, [(self.i0, i)])
 
     def __repr__(self):
         return f"SymSeq<{self.name}>"
